@@ -17,8 +17,8 @@ pub const LETTERS_VALID: [&[u8]; 9] = [
     b"b",
     b"\r",
     "\u{e9}".as_bytes(),
-    "\u{301}".as_bytes(),
     "\u{a0}".as_bytes(),
+    "\u{301}".as_bytes(),
     "\u{1f1e6}".as_bytes(),
 ];
 pub const LETTERS_INVALID: [&[u8]; 3] = [&[0xFF], &[0xC3], &[0xE2, 0x82]];
